@@ -391,6 +391,21 @@ Definition registry_spec (sk : cfg_sk) (ops : list rop) : Prop :=
   /\ NoDup (map fst e)
   /\ aligned (view_of sk r) = true.
 
+(* the same for ANY configured core fields / dtypes / default values: only the structure of the class
+   (order of concatenation, caches cleared, lists emptied / appended) is required *)
+Definition cfg_struct_ok (sk : cfg_sk) : bool :=
+  ord_ok (k_ord_names sk) && ord_ok (k_ord_defs sk) && ord_ok (k_ord_kinds sk)
+  && all3c (k_reset_props sk)
+  && all3x (k_reset_lists sk) && k_reset_calls_rp sk
+  && all3x (k_add_appends sk) && k_add_calls_rp sk.
+Definition registry_spec_gen (sk : cfg_sk) (ops : list rop) : Prop :=
+  let r := run sk ops reg0 in
+  let e := spec_run sk ops [] in
+  vis_names sk r = k_core_names sk ++ map fst e
+  /\ vis_defs sk r = k_core_defs sk ++ map snd e
+  /\ vis_kinds sk r = k_core_kinds sk ++ repeat (k_fkind sk) (length e)
+  /\ NoDup (map fst e).
+
 (* x is the live-point array over `names` that holds the data rows `a` and defaults elsewhere *)
 Definition lp_of (names : list string) (nsp : bool) (v : nsview) (a : list (list val)) (x : sarr) : Prop :=
   s_names x = dt_names names nsp v /\ s_kinds x = dt_kinds names nsp v
